@@ -624,8 +624,12 @@ class printcore():
             self.clear = True
             return
         if self.resendfrom < self.lineno and self.resendfrom > -1:
-            self._send(self.sentlines[self.resendfrom], self.resendfrom, False)
-            self.resendfrom += 1
+            # Advance before sending: the reply to this very line may be
+            # handled by the read thread before _send() returns, and a new
+            # resend request must not be overwritten afterwards
+            lineno = self.resendfrom
+            self.resendfrom = lineno + 1
+            self._send(self.sentlines[lineno], lineno, False)
             return
         self.resendfrom = -1
         if not self.priqueue.empty():
